@@ -108,7 +108,7 @@ def r_set_pkg(s, r):
     for p in structs:
         k = p["outs"][0] // 2
         td = r.types[k]
-        fields = ['mkSF %s 0 %s' % (coq_str("ID"), coq_str('wire:"-"'))] + \
+        fields = ['mkSF %s 0 %s' % (coq_str("ID"), coq_str('wire:"-"')), 'mkSF %s 0 %s' % (coq_str("hid"), coq_str('wire:"-"'))] + \
                  ["mkSF %s %d %s" % (coq_str(f["name"]), f["t"], coq_str(f["tag"])) for f in td["fields"]]
         sps.append("mkSProv %d 1 %s %d %d %s %s" % (p["id"], coq_str(r.tn(k)), 2 * k, 2 * k + 1, coq_list(fields),
                                                    coq_list([coq_str(l) for l in p.get("_lits", [])])))
